@@ -57,6 +57,10 @@ def run_impl(op, inp):
         if slow and who == slow[0]:
             time.sleep(slow[1])
         cmd = apdu[1]
+        if who is not None and who == inp.get("fault") and not getattr(local, "faulted", False):
+            # the link drops on this client's first exchange
+            local.faulted = True
+            return ("r",)
         if cmd == 0x04:
             return ("d", key_for(apdu[2:]))
         if cmd == 0x02:
@@ -153,7 +157,9 @@ def run_impl(op, inp):
     ok = True
     for i, req in enumerate(inp["requests"]):
         r = replies.get(i, {})
-        if i == inp.get("poison"):
+        if i == inp.get("fault"):
+            ok &= r.get("errorcode") == -905
+        elif i == inp.get("poison"):
             # the handler of this request died: the client gets the empty object — never another client's reply
             ok &= r == {}
         elif req["command"] == "getPubKey":
@@ -173,7 +179,12 @@ def run_impl(op, inp):
             order.append(w)
     counts = {"getPubKey": 1, "sign": 1, "blockchainState": 9, "signerHeartbeat": 5, "blockchainParameters": 1}
     minp = {"clients": [[w, counts[inp["requests"][w]["command"]]] for w in order if w is not None]}
-    return {"__model_input__": minp, "out": {"log": [(-1 if w is None else w) + 0 for w in ids], "replies_ok": bool(ok)}}
+    if inp.get("fault") is not None:
+        # after a link failure the next request repairs the link first: the length of each block is not fixed;
+        # what is checked is contiguity, that every exchange belongs to a request, and the replies
+        minp = {"clients": [[w, sum(1 for x in ids if x == w)] for w in order if w is not None]}
+    # an exchange outside every request (None) is logged as client 999
+    return {"__model_input__": minp, "out": {"log": [(999 if w is None else w) + 0 for w in ids], "replies_ok": bool(ok)}}
 
 
 def gen(tier, rng):
@@ -197,6 +208,31 @@ def gen(tier, rng):
             reqs.append(r)
         out.append(Case(OP, {"requests": reqs, "seed": rng.getrandbits(32)}, stream="sockets", clients=k))
     out += poison_cases(rng, 2 if tier == "quick" else 20)
+    out += fault_cases(rng, 2 if tier == "quick" else 20)
+    return out
+
+
+def fault_cases(rng, n, k=8):
+    """one client's first exchange hits a link failure while the others are queued: the repair belongs to the next
+    request's block — nothing may talk to the device outside a request"""
+    out = []
+    for _ in range(n):
+        reqs = []
+        for _i in range(k):
+            c = rng.choice(["getPubKey", "sign", "blockchainState", "signerHeartbeat", "blockchainParameters"])
+            r = {"command": c, "version": 5}
+            if c == "getPubKey":
+                r["keyId"] = "m/44'/0'/0'/0/0"
+            elif c == "sign":
+                r["keyId"] = "m/44'/137'/0'/0/0"
+                r["message"] = {"hash": bytes(rng.getrandbits(8) for _ in range(32)).hex()}
+            elif c == "signerHeartbeat":
+                r["udValue"] = bytes(rng.getrandbits(8) for _ in range(16)).hex()
+            reqs.append(r)
+        f = rng.randrange(k)
+        if reqs[f]["command"] not in ("sign", "getPubKey"):
+            reqs[f] = {"command": "getPubKey", "version": 5, "keyId": "m/44'/0'/0'/0/0"}
+        out.append(Case(OP, {"requests": reqs, "seed": rng.getrandbits(32), "fault": f}, stream="fault", clients=k))
     return out
 
 
@@ -230,7 +266,7 @@ def search(bad_cases, rng):
                 consts.append(float(n.value))
     except Exception:
         pass
-    out = poison_cases(rng, 3) + list(gen("quick", rng))
+    out = poison_cases(rng, 3) + fault_cases(rng, 12, k=10) + list(gen("quick", rng))
     for total in sorted(set(consts)):
         reqs = [{"command": "blockchainState", "version": 5},
                 {"command": "blockchainParameters", "version": 5},
